@@ -256,21 +256,23 @@ def r3(ctx, rep):
             if not ok:
                 rep.finding(R3, f'C13.R3/check_bound/{[b._name for b in bound]}/{v._name}', m.loc(PAR, f_check), 'ParseContext.check_bound',
                             f'check_bound({v._name}) with bound={[b._name for b in bound]}: got {r!r}')
-            for used in (True, False):
+            for svars in ([], [V[0]], [V[1]], V):
+                used = v in svars
                 ctxo = Obj('ctx', bound=set(bound), pos=3)
                 ctxo.check_bound = lambda vv, c=ctxo: it.call(f_check, [c, vv])
-                s = Obj('sentence', variables={v} if used else set())
+                s = Obj('sentence', variables=set(svars))
                 r = it.safe(f_unbind, [ctxo, v, s])
                 if v not in bound:
                     ok = isinstance(r, Raises) and 'UnboundVariableError' in r.text
                 elif not used:
                     ok = isinstance(r, Raises) and 'BoundVariableError' in r.text
                 else:
-                    ok = r == (v, s) and v not in ctxo.bound
-                rep.instance(R3, ok=ok, nontrivial=('unbind', len(bound), v._name, used))
+                    ok = r == (v, s) and v not in ctxo.bound and ctxo.bound == set(bound) - {v}
+                rep.instance(R3, ok=ok, nontrivial=('unbind', len(bound), v._name, tuple(x._name for x in svars)))
                 if not ok:
-                    rep.finding(R3, f'C13.R3/unbind/{[b._name for b in bound]}/{v._name}/{used}', m.loc(PAR, f_unbind), 'ParseContext.unbind',
-                                f'unbind({v._name}) with bound={[b._name for b in bound]}, variable used={used}: got {r!r}')
+                    rep.finding(R3, f'C13.R3/unbind/{[b._name for b in bound]}/{v._name}/{[x._name for x in svars]}', m.loc(PAR, f_unbind), 'ParseContext.unbind',
+                                f'unbind({v._name}) with bound={[b._name for b in bound]}, variables occurring in the body={[x._name for x in svars]}: got {r!r} '
+                                f'(expected {"UnboundVariableError" if v not in bound else ("BoundVariableError: the variable does not occur in its scope" if not used else "the pair, with the variable unbound")})')
     # Variable construction sites
     sites = []
     for qn, fn in parser_functions(m):
